@@ -32,6 +32,9 @@ New spec keys (all optional):
              function (a decorator's wrapper), whose body must be: [docstring,] that def, `return <name>`;
              its *args / **kwargs parameters are dropped (they may only be passed on in a try_call given by
              its exact text)
+  tail       dict(stmts=n, free=[names]): only the last n statements of the function are translated (the last
+             one must be a return); the listed local names they read become parameters of the generated
+             definition (whatever they hold at that point)
   truthy     [types whose values are always truthy]: an Optional of such a type used as a condition is
              `is not None`
   (tuples)   `a, b = f(..)` for a call whose declared result is a spec["tuples"] type
@@ -429,18 +432,34 @@ def _translate_all(repo, specs, header=pysrc.HEADER):
     """pysrc.translate_all rejects every decorator but @override / @property before it calls Tr.function.
     For a spec with decorators_ok the listed decorators are accepted: find_function is made to hand out a
     copy of the FunctionDef without them (for the specs that ask for it, matched by class and function)."""
-    ok, inner = {}, {}
+    ok, inner, tails = {}, {}, {}
     for sp in specs:
         if sp.get("decorators_ok"):
             ok[(sp["file"], sp.get("cls"), sp["func"])] = set(sp["decorators_ok"])
         if sp.get("inner_def"):
             inner[(sp.get("cls"), sp["func"])] = sp["inner_def"]
-    if not ok and not inner:
+        if sp.get("tail"):
+            tails[(sp.get("cls"), sp["func"])] = sp["tail"]
+    if not ok and not inner and not tails:
         return _orig_translate_all(repo, specs, header)
     orig_find = pysrc.find_function
 
     def find(tree, cls, func):
         fdef = orig_find(tree, cls, func)
+        if (cls, func) in tails:
+            # only the last statements of the function, its free local names becoming parameters
+            t = tails[(cls, func)]
+            w = copy.copy(fdef)
+            w.body = list(fdef.body[-t["stmts"]:])
+            if len(fdef.body) <= t["stmts"] or not isinstance(w.body[-1], ast.Return):
+                raise Unsupported(f"{func}: no final return to translate on its own")
+            w.args = copy.deepcopy(fdef.args)
+            have = {x.arg for x in w.args.args}
+            for n in t["free"]:
+                if n in have:
+                    raise Unsupported(f"{func}: {n} is already a parameter")
+                w.args.args.append(ast.arg(arg=n, annotation=None))
+            return w
         if (cls, func) in inner:
             name = inner[(cls, func)]
             body = [x for x in fdef.body
